@@ -5,6 +5,9 @@ CHECKS = {
  "C16": ("model_checking", "TLC model checking of spec/Varint.tla + BigInt.tla theorems (MC_Varint, MC_BigInt) and TLC trace validation (Trace_Varint) of events recorded from encode_varint/size_varint/dump_varint/decode_varint/load_varint and one-field messages of betterproto and the reference",
          "Exhaustive small-scope model checking of the scalar-layer specification (round trip, canonical form, size, zig-zag, two's complement, padding, too-long/EOF rejection; digit arithmetic sound against TLC's native integers; betterproto's encode/decode loops as a step machine) plus TLC validation of tens of thousands of recorded primitive events: exhaustive below 2^14 (quick) / 2^21 (thorough), every 2^k boundary, random 64-bit, all byte strings <=2 bytes and the continuation family as decoder input, all scalar kinds cross-checked byte-for-byte with google.protobuf.",
          "Trusted: TLC/SANY, CommunityModules Json, struct.pack for IEEE bit patterns, int<->base-128 digit transport; google.protobuf as reference (its events are validated against the same spec).", "5.1, 6/C16"),
+ "C12": ("model_checking", "TLC model checking of spec/AsyncChannel.tla (faithful asyncio.Queue/Task/Future + AsyncChannel model; every placement of Wake/Cancel among atomic steps; invariants + liveness under fairness), replay of TLC-simulated behaviours on the real asyncio classes with per-step state comparison, and TLC trace validation (Trace_AbsChannel over spec/AbsChannel.tla) of the call/return logs of those runs and of seeded model-free random schedules",
+         "All schedules of the FIFO ready queue for a family of small programs (1-2 senders, send/send_from, separate closer, 1-3 receivers using receive()/async-for, bounded and unbounded buffers, one cancellation anywhere, gates released up to one operation ahead) are explored exhaustively on a line-by-line model of AsyncChannel over CPython's Queue/Task/Future; the model is bound to the code by replaying simulated behaviours on the real classes (every step compared, internals included) and the property itself is decided on the real executions by stepping their public call/return logs through the abstract channel specification.",
+         "Trusted: steploop.py reproduces the stock loop's FIFO ready queue; CPython 3.12 asyncio semantics as modelled (conformance-checked); senders/flush task are not cancelled in the explored programs.", "5.5, 6/C12"),
 }
 NOT_YET = {}
 def main():
